@@ -142,7 +142,7 @@ func TestC07(t *testing.T) {
 	depth := vk.Pick(run, 5, 7)
 	run.Set("depth", depth)
 	a := evAlpha{Skips: []int{2, 3}, Head: true, Advance: []int{40}, Errors: true, Prefix: true}
-	dl := vk.NewDeadline(vk.Pick(run, 10*time.Minute, 120*time.Minute))
+	dl := vk.NewDeadline(vk.Pick(run, 10*time.Minute, 45*time.Minute))
 	cfgs := []SCfg{{N: 14, S: 3, R: 0, Batch: 1, Hold: true}, {N: 14, S: 3, R: 0, Batch: 3, Hold: true}}
 	// stale head and trusted peers whose reported head lags behind gossip: the same head can be learned
 	// twice, by gossip and then by the slow Head() answer
